@@ -121,6 +121,15 @@ pub fn run(cfg: &Cfg) {
             KeyType::Ed25519 => {
                 let k4 = PublicKey::from_ed25519_with_keyid_hash_algorithms(p.as_bytes().to_vec(), sha2.clone()).unwrap();
                 sink.oracle(keyid_hex(&k4) == id, "raw-bytes ed25519 constructor gives another id for the same description", &replay);
+                for odd in [vec!["sha512", "sha256"], vec!["sha256", "sha256"], vec!["zz", "aa"], vec![]] {
+                    let odd: Vec<String> = odd.into_iter().map(String::from).collect();
+                    if let Ok(k6) = PublicKey::from_ed25519_with_keyid_hash_algorithms(p.as_bytes().to_vec(), Some(odd.clone())) {
+                        sink.oracle(algs_of(&k6) == Some(odd.clone()), "a key constructed with a hash-algorithm list describes itself with another list", &replay);
+                        if !odd.is_empty() {
+                            keyid_case(&mut sink, &k6, "raw-odd-algs");
+                        }
+                    }
+                }
                 keyid_case(&mut sink, &PublicKey::from_ed25519(p.as_bytes().to_vec()).unwrap(), "raw-no-algs");
                 // derivation from the private key given as seed + public key (64 bytes): the same key,
                 // the id of the description without a hash-algorithm list
@@ -143,6 +152,15 @@ pub fn run(cfg: &Cfg) {
             KeyType::Ecdsa => {
                 let k4 = PublicKey::from_ecdsa_with_keyid_hash_algorithms(p.as_bytes().to_vec(), sha2.clone()).unwrap();
                 sink.oracle(keyid_hex(&k4) == id, "raw-bytes ecdsa constructor gives another id for the same description", &replay);
+                for odd in [vec!["sha512", "sha256"], vec!["sha256", "sha256"], vec!["zz", "aa"], vec![]] {
+                    let odd: Vec<String> = odd.into_iter().map(String::from).collect();
+                    if let Ok(k6) = PublicKey::from_ecdsa_with_keyid_hash_algorithms(p.as_bytes().to_vec(), Some(odd.clone())) {
+                        sink.oracle(algs_of(&k6) == Some(odd.clone()), "a key constructed with a hash-algorithm list describes itself with another list", &replay);
+                        if !odd.is_empty() {
+                            keyid_case(&mut sink, &k6, "raw-odd-algs");
+                        }
+                    }
+                }
                 keyid_case(&mut sink, &PublicKey::from_ecdsa(p.as_bytes().to_vec()).unwrap(), "raw-no-algs");
             }
             _ => {}
@@ -468,6 +486,59 @@ pub fn run(cfg: &Cfg) {
                 sink.oracle(res != Ok(true), what, &replay);
                 sink.stat(&format!("related-label/{}", match res { Ok(true) => "ACCEPTED", Ok(false) => "rejected", Err(()) => "panic" }));
             }
+        }
+    }
+    // ---- the key table a caller hands to final-product verification, with entries filed under a wrong or
+    //      another key's identifier: a signature labelled X is checked against, and counted for, the key
+    //      whose own identifier is X - not the key that happens to be filed under X
+    {
+        use chrono::TimeZone;
+        use std::collections::HashMap;
+        let tmp = tempfile::Builder::new().prefix("itv-c12-").tempdir().unwrap();
+        let links = tmp.path().to_str().unwrap().to_string();
+        let now = chrono::Utc.with_ymd_and_hms(2031, 5, 17, 12, 0, 0).unwrap();
+        for i in 0..(if cfg.thorough { 200 } else { 24 }) {
+            let a = r.pick(&pool);
+            let x = r.pick(&pool);
+            if keyid_hex(a.public()) == keyid_hex(x.public()) {
+                continue;
+            }
+            // where the key is filed: under another key's id, or under an id no key has
+            let wrong = if i % 2 == 0 { keyid_hex(x.public()) } else { format!("{:064x}", 0xf11ed + i as u64) };
+            let layout = LayoutMetadataBuilder::new().expires(now + chrono::Duration::days(30)).readme(format!("table case {}", i)).build().unwrap();
+            let mb = match in_toto::models::Metablock::new(in_toto::models::MetadataWrapper::Layout(layout), &[&a.key]) {
+                Ok(m) => m,
+                Err(_) => continue,
+            };
+            let honest = serde_json::to_value(&mb).unwrap();
+            let mut forged = honest.clone();
+            forged["signatures"][0]["keyid"] = Value::String(wrong.clone());
+            let wrong_id: in_toto::crypto::KeyId = serde_json::from_value(Value::String(wrong.clone())).unwrap();
+            let verify = |doc: &Value, keys: HashMap<in_toto::crypto::KeyId, PublicKey>| -> Result<bool, ()> {
+                let d = doc.clone();
+                let l = links.clone();
+                guarded(std::panic::AssertUnwindSafe(move || {
+                    in_toto::verif_hooks::set_now(Some(now));
+                    let r = serde_json::from_value::<in_toto::models::Metablock>(d).ok().map(|m| in_toto::verifylib::in_toto_verify(&m, keys, &l, None).is_ok());
+                    in_toto::verif_hooks::set_now(None);
+                    r.unwrap_or(false)
+                }))
+            };
+            let proper: HashMap<_, _> = [(a.public().key_id().clone(), a.public().clone())].into_iter().collect();
+            let misfiled: HashMap<_, _> = [(wrong_id.clone(), a.public().clone())].into_iter().collect();
+            let replay = format!("caller-table: key {} filed under {} ; layout {}", keyid_hex(a.public()), wrong, hex(honest.to_string().as_bytes()));
+            // (the control: properly filed and properly labelled)
+            let control = verify(&honest, proper.clone());
+            sink.oracle(control == Ok(true), "a layout signed by the one supplied key, properly filed, is refused", &replay);
+            // the signature labelled with the wrong id: it names no key whose identifier that is
+            let f1 = verify(&forged, misfiled.clone());
+            sink.oracle(f1 != Ok(true), "a layout signature labelled X was checked against and counted for the key that the caller's table files under X (its own identifier is another)", &replay);
+            let f2 = verify(&forged, proper.clone());
+            sink.oracle(f2 != Ok(true), "a layout signature labelled with another identifier than its key's was counted for that key", &replay);
+            // the key filed under a wrong id still answers to its own identifier
+            let h = verify(&honest, misfiled.clone());
+            sink.oracle(h == control, "the supplied key's own, properly labelled signature is not counted when the caller's table files the key under another identifier", &replay);
+            sink.stat(&format!("caller-table/{}/forged-{}/honest-{}", if i % 2 == 0 { "under-another-keys-id" } else { "under-an-id-of-no-key" }, match f1 { Ok(true) => "ACCEPTED", Ok(false) => "refused", Err(()) => "panic" }, match h { Ok(true) => "accepted", Ok(false) => "REFUSED", Err(()) => "panic" }));
         }
     }
     let _ = json!(0);
